@@ -44,6 +44,21 @@ def _sweep_stale_scratch(max_age_s=3600):
 _sweep_stale_scratch()
 
 
+def _remove_own_scratch():
+    import glob
+    import os
+    import tempfile
+    for pth in glob.glob(os.path.join(tempfile.gettempdir(), f'mc_native_*_{os.getpid()}_*')):
+        try:
+            os.remove(pth)
+        except OSError:
+            pass
+
+
+import atexit as _atexit      # noqa: E402
+_atexit.register(_remove_own_scratch)
+
+
 def _quiet(qualname):
     """the real function, with its (expected) warnings silenced"""
     def call(**kw):
